@@ -122,9 +122,16 @@ def extra_run(task):
                     res.violation(v['clause'], v['cls'], v['msg'], case)
             p = p[:p.rindex('/')]
         return res
+    from mc.model import ModelRefuse
     for kind, payload in task['cases']:
         case = {'extra': True, 'cfg': cfg, 'steps': build_steps(cfg, task['iso_name'], kind, payload)}
-        status, viols, info = master.evaluate(case, SWEEP_ORACLES, res)
+        try:
+            status, viols, info = master.evaluate(case, SWEEP_ORACLES, res)
+        except ModelRefuse:
+            # the reference model refuses the input (identifier + Rock Ridge entries do not fit the record): whether the
+            # implementation refuses it too is C13's subject
+            res.count('sweep_model_refused')
+            continue
         res.count('sweep_cases')
         if status == 'refused':
             res.count('sweep_refused')
